@@ -169,7 +169,7 @@ def catalog_rules(repo, res):
                 raise AnalysisError(f'vanished anchor: {cn}.{m}')
             from ..axis import body_without_doc
             bodies.setdefault(m, {})[key] = [SP.nf_stmt(s) if not isinstance(s, ast.If) else 'if ' + nf(s.test) + ': ' + '; '.join(SP.nf_stmt(b) for b in s.body)
-                                             for s in body_without_doc(g.node)]
+                                             for s in body_without_doc(g.node) if not isinstance(s, ast.Pass)]
     for m, d in bodies.items():
         vals = list(d.values())
         ok = all(v == vals[0] for v in vals)
